@@ -332,6 +332,8 @@ def run(tree, rep, tier):
     observers_fire_eventually(tree, rep, "C18.R6")
     eventual_turn_isolates_calls(tree, rep, "C18.R6")
     r7(tree, prog, rep)
+    from .. import delegate
+    delegate.check(tree, rep, "C18.R9", why=" (events no longer once each and in causal order)")
     # "at most once each": in delegate mode nothing but the Mailbox's de-duplication by PHASE stands between a second copy of the peer's
     # version message (a replay after a reconnect, or the same plaintext encrypted again) and a second got_versions event - the rule
     # instances are those of C02.R5
